@@ -390,17 +390,137 @@ def _r039_path(rep, ctx, kwd, kind, where):
                    % (kwd, 'its sub-statement' if is_body else 'its expression', name), where='parse.c:%d' % line)
 
 
-def r031(P, rep):
+def _cmp_truth(ctx, r):
+    """how the path decided the comparison term r (None: it did not); the decision may have been taken on `r != 0`, `!r`, `!r != 0`, ..."""
+    from ..interp import vkey
+    k = vkey(r)
+
+    def unwrap(key, neg=False, depth=0):
+        if key == k:
+            return neg
+        if depth < 6 and isinstance(key, tuple) and key and key[0] == 'term':
+            if len(key) == 4 and key[1] in ('!=', '==') and key[3] == 0:
+                return unwrap(key[2], neg != (key[1] == '=='), depth + 1)
+            if len(key) == 3 and key[1] == '!':
+                return unwrap(key[2], not neg, depth + 1)
+        return None
+    for fk, fv in ctx.facts.items():
+        neg = unwrap(fk)
+        if neg is not None:
+            return bool(fv) != neg
+    if ctx.bounds.get(k) == [0, 0]:
+        return False
+    if 0 in ctx.neq.get(k, ()):
+        return True
+    return None
+
+
+def r032_ranges(rep, it, res, where):
+    """GNU case ranges `case B ... E:`: the range is diagnosed as empty exactly when E < B in the type of the controlling expression"""
+    from ..lib_parse import spelled
+    from ..interp import Term
+    n_diag = n_ok = 0
+    reads_type = False
+    for ctx, out in res:
+        if spelled(it, getattr(ctx, 'tok0', None)) != ['case']:
+            continue
+        tyv = getattr(ctx, 'sw_ty', None)
+        if isinstance(tyv, View) and getattr(tyv.cell, 'refined_at', None):
+            reads_type = True
+        ce = [e for e in ctx.events if e[0] == 'call' and e[1] == 'const_expr']
+        if len(ce) != 2:
+            continue
+        B, E = ce[0][4], ce[1][4]
+        after = ctx.events[ctx.events.index(ce[1]) + 1:]
+        if out[0] == 'noreturn':
+            # the diagnostic of the range itself: raised before anything else of the statement is parsed (not the `expected ":"` of skip())
+            if any(e[0] in ('body', 'sub') for e in after) or (len(out) > 2 and out[2] and isinstance(out[2][0], str)):
+                continue
+            diagnosed = True
+        elif out[0] == 'ret':
+            diagnosed = False
+        else:
+            continue
+        tyv = getattr(ctx, 'sw_ty', None)
+        if not isinstance(tyv, View):
+            rep.undecided('R03.2', 'parse.c:stmt:case:range-controlling-type', 'the type of the enclosing switch\'s controlling expression is not modelled', where=where)
+            return
+        cands = [c for c in tyv.cell.cands if isinstance(c, Obj)]
+        u64 = [c.meta.get('cat') for c in cands if c.fields.get('is_unsigned') == 1 and c.fields.get('size') == 8]
+        rest = [c.meta.get('cat') for c in cands if not (c.fields.get('is_unsigned') == 1 and c.fields.get('size') == 8)]
+
+        def strip(v):
+            while isinstance(v, Term) and v.op.startswith('cast:') and len(v.args) == 1:
+                v = v.args[0]
+            return v
+        decided = []        # (E < B holds, operand type, line)
+        odd = None
+        for e in after:
+            if e[0] != 'cmp':
+                continue
+            op, a, b, ty, r, line = e[1:7]
+            t = _cmp_truth(ctx, r)
+            if t is None:
+                continue
+            a0, b0 = strip(a), strip(b)
+            narrowed = a0 is not a or b0 is not b
+            if a0 is E and b0 is B and op in ('<', '>='):
+                lt = t if op == '<' else not t
+            elif a0 is B and b0 is E and op in ('>', '<='):
+                lt = t if op == '>' else not t
+            elif (a0 is E or a0 is B) and (b0 is E or b0 is B) and a0 is not b0:
+                odd = (op, line); continue
+            else:
+                continue
+            decided.append((lt, (ty if not narrowed else (32, ty[1] if ty else True)), line))
+        kind = 'diagnosed-as-empty' if diagnosed else 'accepted'
+        if odd is not None and not decided:
+            # `end <= begin` / `begin < end`: not the emptiness test of a range (a one-value range B ... B is not empty)
+            rep.ob('R03.2', 'parse.c:stmt:case:range-emptiness-test-is-end-below-begin', False,
+                   'a case range is %s on the outcome of `%s` between its bounds (parse.c:%d), which is not `end < begin`: the one-value range `case 3 ... 3:` is treated wrongly' % (kind, odd[0], odd[1]), where=where)
+            continue
+        if not decided:
+            if diagnosed:
+                rep.undecided('R03.2', 'parse.c:stmt:case:range-diagnostic', 'a case range is rejected on a path that does not compare its two bounds', where=where)
+            else:
+                rep.ob('R03.2', 'parse.c:stmt:case:range-accepted-iff-end-not-below-begin', False,
+                       'a case range is accepted on a path that never compares its bounds: `case 5 ... 1:` is not diagnosed (the code generator\'s `value - begin <= end - begin` test would then match almost every value)', where=where)
+            continue
+        n_diag += diagnosed
+        n_ok += not diagnosed
+        lts = set(d[0] for d in decided)
+        rep.ob('R03.2', 'parse.c:stmt:case:range-%s-iff-end-%sbelow-begin' % (kind, '' if diagnosed else 'not-'), lts == {diagnosed},
+               'a case range is %s on a path where `end < begin` is %s' % (kind, 'false' if diagnosed else 'true'), where='parse.c:%d' % decided[0][2], facts={'path': ctx.trail[-6:]})
+        tys = set(d[1] for d in decided)
+        if u64:
+            rep.ob('R03.2', 'parse.c:stmt:case:range-bounds-compared-unsigned-for-unsigned-64-bit-controlling-type', tys == {(64, False)},
+                   'with a controlling expression of type %s the bounds of a case range are compared as %s: they are values of the controlling type, so for an unsigned 64-bit type '
+                   '`case 0x7ffffffffffffff0 ... 0x800000000000000f:` is a non-empty range (end < begin only as signed numbers) and must not be rejected, and a range that is empty as unsigned must be'
+                   % ('/'.join(u64), ', '.join('%s %d-bit' % ('signed' if t and t[1] else 'unsigned', t[0] if t else 0) for t in sorted(tys, key=repr))), where='parse.c:%d' % decided[0][2], facts={'path': ctx.trail[-6:]})
+        if rest:
+            rep.ob('R03.2', 'parse.c:stmt:case:range-bounds-compared-signed-for-signed-or-narrower-controlling-type', tys == {(64, True)},
+                   'with a controlling expression of type %s the bounds of a case range are compared as %s: for a signed (or narrower) controlling type the folded 64-bit values must be compared '
+                   'as signed 64-bit numbers, otherwise `case -5 ... 5:` is rejected as empty (or an empty range accepted)'
+                   % ('/'.join(rest), ', '.join('%s %d-bit' % ('signed' if t and t[1] else 'unsigned', t[0] if t else 0) for t in sorted(tys, key=repr))), where='parse.c:%d' % decided[0][2], facts={'path': ctx.trail[-6:]})
+    if n_diag == 0 or n_ok == 0:
+        rep.undecided('R03.2', 'parse.c:stmt:case:ranges', 'no path of the case arm %s a range after comparing its bounds' % ('rejects' if n_diag == 0 else 'accepts'), where=where)
+    return reads_type
+
+
+def r031(P, rep, cat=None):
     rep.rule('R03.9', 'selection and iteration statements (if, switch, while, do, for) are blocks: every part of such a statement (header expressions/declaration and sub-statements) is parsed inside a '
                       'scope the statement itself entered, a sub-statement\'s scope is closed before any later part is parsed, and no other statement form opens a scope around its parts', floor=12)
     rep.rule('R03.1', 'parsing any statement leaves break/continue/switch context as it found it; loop bodies are parsed with the loop\'s own fresh labels, switch bodies with the switch\'s break label and the enclosing continue label; block scopes are entered and left in pairs', floor=12)
-    rep.rule('R03.2', 'case/default are registered on the innermost switch after a null check, and the folded case value reaches the node unnarrowed', floor=4)
+    rep.rule('R03.2', 'case/default are registered on the innermost switch after a null check, the folded case value reaches the node unnarrowed, and a GNU case range is diagnosed as empty '
+                      'exactly when end < begin as 64-bit values compared in the signedness of the controlling expression\'s type (unsigned for an unsigned 64-bit type, signed otherwise), '
+                      'that type having been computed before the body is parsed', floor=9)
     rep.rule('R03.7', 'only the body of a loop/switch is parsed with that construct\'s own break/continue/switch context: every other part of a statement (controlling expression, '
                       'for-init/increment, case value, returned expression) is handed to its parser with the context of the enclosing construct, because a break/continue/case '
                       'written there (GNU statement expression) is not in the body (C11 6.8.6.2/6.8.6.3, 6.8.4.2); and a for statement\'s scope is open while its header is parsed', floor=30)
     from ..lib_parse import spelled, OTHER
-    pu, tm, it, res = explore_stmt(P)
+    pu, tm, it, res = explore_stmt(P, cat)
     where = 'parse.c:%d' % pu.fn('stmt').line
+    case_reads_type = r032_ranges(rep, it, res, where)
     kinds_seen = set()
     NK = {v: k for k, v in pu.enums.items() if k.startswith('ND_')}
     for ctx, out in res:
@@ -449,6 +569,19 @@ def r031(P, rep):
                 rep.ob('R03.1', 'parse.c:stmt:%s:body-sees-own-labels' % arm, okb,
                        'the body of a loop is parsed with break label %r / continue label %r, the node carries %r / %r' % (g['brk_label'], g['cont_label'], node.fields.get('brk_label'), node.fields.get('cont_label')), where=where)
             elif kind == 'ND_SWITCH':
+                if case_reads_type:
+                    # the case arm looks at the type of the controlling expression: it has one only after add_type ran over it (the parser types nothing by itself)
+                    cond = node.fields.get('cond')
+                    before = ctx.events[:ctx.events.index(b)]
+                    same_v = lambda x, y: x is y or (_vlabel(it, x) is not None and _vlabel(it, x) == _vlabel(it, y))
+                    typed = [e for e in before if e[0] == 'call' and e[1] == 'add_type' and e[2] and (same_v(e[2][0], cond) or e[2][0] is node)]
+                    elsewhere = [e for e in before if e[0] == 'call' and e[1] not in ('add_type',) and any(same_v(a, cond) for a in (e[2] or []))]
+                    if not typed and elsewhere:
+                        rep.undecided('R03.2', 'parse.c:stmt:switch:controlling-expression-typed-before-body', 'the controlling expression is handed to %s() instead of add_type()' % elsewhere[0][1], where=where)
+                    else:
+                        rep.ob('R03.2', 'parse.c:stmt:switch:controlling-expression-typed-before-body', bool(typed),
+                               'the case arm reads the type of the enclosing switch\'s controlling expression (current_switch->cond->ty), but the switch arm parses its body without having typed that '
+                               'expression (no add_type on it): every case label in the body reads a null type', where='parse.c:%d' % b[2])
                 cs2 = g['current_switch']
                 cs2 = it.settle(cs2) if isinstance(cs2, View) else cs2
                 okb = g['brk_label'] is node.fields.get('brk_label') and isinstance(g['brk_label'], Sym) and g['brk_label'].name != 'brk0' \
@@ -896,7 +1029,7 @@ def run(P, rep, tier):
     rep.assumptions += ['children and sub-statements satisfy their contracts (structural induction)', 'floating truth tests are judged by C02 (R02.4); here either NaN treatment is accepted']
     r033(cg, rep)
     r033_switch(cg, rep)
-    r031(P, rep)
+    r031(P, rep, cg.cat)
     r035(P, rep)
     r038(P, rep)
     r036(P, rep)
